@@ -191,6 +191,77 @@ func runCDSess(env *Env) error {
 			env.Sample(map[string]any{"id": id, "images": fmt.Sprintf("a.bin:%d b.bin:%d raw.bin small.bin", s1, s2), "requests": rs})
 		}
 		os.RemoveAll(top)
+		if i%4 == 1 {
+			if err := cdUpperEdge(env, base, i); err != nil {
+				return err
+			}
+		}
+	}
+	return nil
+}
+
+// cdUpperEdge: the upper edge of the detection window (848 MiB, inclusive) on sparse images: at the edge the signature
+// is honoured, one byte above it the default of 2352 applies.  Oracle-only (an image of that size is out of the model's reach).
+func cdUpperEdge(env *Env, base string, i int) error {
+	const edge = 0x35000000
+	s := []int{2048, 2328, 2336, 2340, 2368, 2448}[env.Rnd.Intn(6)]
+	for _, total := range []int64{edge, edge + 1} {
+		id := fmt.Sprintf("cd-edge-%d-%d", i, total-edge)
+		top := filepath.Join(base, fmt.Sprintf("e%d", i))
+		const k = 1000
+		offS, offD := int64(24+k*s), int64(24+k*2352) // where sector k's user data lies for the detected and for the default size
+		type piece struct {
+			off int64
+			a   int
+		}
+		ps := []piece{{offS, 1}, {offD, 2}}
+		if offD < offS {
+			ps = []piece{{offD, 2}, {offS, 1}}
+		}
+		var c Content
+		pre := 16*s + 24
+		sig := []byte("\x01CD001")
+		c = append(c, Seg{Kind: 'z', N: pre}, Seg{Kind: 'h', Data: sig})
+		pos := int64(pre + len(sig))
+		for _, p := range ps {
+			c = append(c, Seg{Kind: 'z', N: int(p.off - pos)}, Seg{Kind: 'g', N: 2048, A: p.a})
+			pos = p.off + 2048
+		}
+		c = append(c, Seg{Kind: 'z', N: int(total - pos)})
+		w := &WNode{Dir: true, MTime: 1300000000, Kids: []*WNode{{Name: "R", Dir: true, MTime: 1500000000, Kids: []*WNode{{Name: "huge.bin", MTime: 1400000000, Content: c}}}}}
+		if err := w.Materialise(top); err != nil {
+			os.RemoveAll(top)
+			env.Count("skipped", "no room for a sparse image")
+			return nil
+		}
+		want := Content{{Kind: 'g', N: 2048, A: 1}}.Bytes()
+		what := fmt.Sprintf("detected size %d", s)
+		if total > edge {
+			want = Content{{Kind: 'g', N: 2048, A: 2}}.Bytes()
+			what = "default size 2352"
+		}
+		reqs := []*Req{{Op: opOpenFile, Path: "/huge.bin", Junk: make([]byte, 14)}, {Op: opReadCD, Start: k, Cnt: 1, Junk: make([]byte, 14)}}
+		var chunks [][]byte
+		var ops []int
+		for _, q := range reqs {
+			chunks = append(chunks, q.Wire())
+			ops = append(ops, q.Op)
+		}
+		res, err := runSession(top, false, chunks, ops, 65536, nil)
+		if err != nil {
+			return err
+		}
+		ok := len(res.steps) == 2 && bytes.Equal(res.steps[1].out, want)
+		if !ok {
+			got := -1
+			if len(res.steps) == 2 {
+				got = len(res.steps[1].out)
+			}
+			env.OracleFail(id, fmt.Sprintf("[C17-window] image of %d bytes (848 MiB%+d) with the signature of sector size %d: sector %d must come from the %s; got %d bytes that are not those", total, total-edge, s, k, what, got))
+		}
+		env.Case(id, "NOMODEL", []string{fmt.Sprint(s), fmt.Sprint(total)}, fmt.Sprintf("ok=%v", ok), true)
+		env.Count("upper_edge", fmt.Sprintf("%+d", total-edge))
+		os.RemoveAll(top)
 	}
 	return nil
 }
